@@ -26,7 +26,7 @@ type cnode struct {
 	partition int
 	id        int
 	linkCut   int32 // 1 = the link to the leaders is cut: deliveries fail, no new stream can be opened
-	noQuery   int32 // 1 = its query handlers fail, 2 = they are too slow
+	noQuery   int32 // 1 = its query handlers fail, 2 = they are too slow, 3 = they fail with a retriable error
 	slow      int32 // 1 = every delivery takes a few milliseconds longer
 	stopReg   chan struct{}
 	// what the follower announced in its Follow requests (C12: the protocol's precondition)
@@ -262,6 +262,8 @@ func (c *cluster) openFollower(n *cnode) error {
 								switch atomic.LoadInt32(&n.noQuery) {
 								case 1:
 									return nil, fmt.Errorf("follower unavailable")
+								case 3: // the way the rpc server reports a follower it cannot reach: the leader may try another handler
+									return nil, common.MarkRetriable(fmt.Errorf("unable to send query"))
 								case 2: // slower than the leader is willing to wait
 									select {
 									case <-time.After(6 * time.Second):
